@@ -705,6 +705,26 @@ func firstOpen(v ssa.Value, n *Normer, depth int) ssa.Value {
 				}
 			}
 		}
+		// a small local literal table read at a computed position
+		if al, ok := x.X.(*ssa.Alloc); ok {
+			if arr, isArr := al.Type().Underlying().(*types.Pointer).Elem().Underlying().(*types.Array); isArr && arr.Len() >= 2 && arr.Len() <= 8 {
+				if _, isK := n.Norm(x.Index).IsConst(); !isK {
+					var rd ssa.Instruction
+					for _, r := range *x.Referrers() {
+						if ld, isLd := r.(*ssa.UnOp); isLd {
+							rd = ld
+						}
+					}
+					all := rd != nil
+					for k := int64(0); k < arr.Len() && all; k++ {
+						all = tableCellStore(al, k, nil, rd, 0) != nil
+					}
+					if all {
+						return &tablePos{x.Index, int(arr.Len())}
+					}
+				}
+			}
+		}
 		return nil
 	case *ssa.Lookup:
 		if p := firstOpen(x.Index, n, depth+1); p != nil {
